@@ -321,6 +321,32 @@ known("KF-C02-07", "C02", D, r"Decoder.*", r"stream-differs-from-buffer", r"(err
 known("KF-C07-01", "C07", "twin", None, r"unaddressed-storage-differs:nil->non-nil", r"bytes.* @ slice\(elem1\):null",
       'null into a pre-populated []byte field keeps the old bytes (encoding/json sets nil)', "see KF-C02-05", "see KF-C02-05", "see KF-C02-05")
 
+# ------------------------------------------------------------------ C15
+FS = "field-selection"
+known("KF-C15-01", "C15", FS, "decode", r"fields-set-differ", r"fallback:casefold-(ascii|unicode)(\(ambiguous\))?(\(long\))?:[a-z+-]+:(buffer|stream):(missed|wrong-field)",
+      '{"K19":1} does not reach the field tagged k19 of a 19-field struct; {"aB":1} with fields Ab and AB; any struct with a name > 64 bytes or an upper-case non-ASCII letter', "internal/decoder/struct.go decodeKey (map fallback used when tryOptimize gives up): exact or all-lower-case keys only",
+      "other missed case-insensitive matches on structs that use the fallback lookup", "fallback would need a folded-name table like encoding/json's")
+known("KF-C15-02", "C15", FS, "decode", r"fields-set-differ", r"bitmap(8|16):casefold-unicode(\(ambiguous\))?:[a-z+-]+:(buffer|stream):(missed|wrong-field)",
+      '{"BB\u00c9":1} does not reach the field tagged bb\u00e9 (encoding/json folds non-ASCII letters too)', "internal/decoder/struct.go largeToSmallTable: ASCII-only folding in the bitmap lookup",
+      "other missed non-ASCII case folds", "needs Unicode simple folding in the bitmap tables")
+known("KF-C15-03", "C15", FS, "decode", r"fields-set-differ", r"bitmap(8|16):(unrelated|prefix|extension):(part|full)-escaped:(buffer|stream):spurious",
+      '{"\\u0042":1} sets the field named bA; {"\\u0061":5} sets Ab', "internal/decoder/struct.go decodeKeyByBitmap*: the early-match test compares the escaped byte length of the key with the field's length",
+      "other spurious matches by escaped keys in the bitmap lookup", "needs the decoded length in the early-match test")
+known("KF-C15-04", "C15", FS, "decode", r"verdict", r"bitmap(8|16):[a-z()-]+:full-escaped:stream:go-error",
+      'Decoder fed 5-byte chunks fails on {"\\u0062\\u0062":1} with "invalid character u as escaped char"', "internal/decoder/struct.go decodeKeyCharByUnicodeRuneStream: refill inside a \\u escape of a key (see C09)",
+      "other stream errors on fully escaped keys", "see C09")
+known("KF-C15-05", "C15", FS, "decode-embedded", r"(verdict|fields-set-differ)", r"(EmbVal|EmbDeep|EmbPtr|EmbConflict|EmbL3|EmbL3Ptr|EmbShadow|EmbDepthWins|EmbTaggedWins|Tags|EmbCase|EmbTagged):casefold-ascii(\\(ambiguous\\))?",
+      '{"B":7} into EmbVal (field b promoted from EmbInner) is ignored; encoding/json reports a type error', "internal/decoder/compile.go: promoted fields of embedded structs are registered under their exact name only",
+      "other case-insensitive misses on promoted fields", "field registration for anonymous structs")
+known("KF-C15-06", "C15", FS, "decode-embedded", r"(verdict|fields-set-differ)", r"(EmbL3|EmbL3Ptr):exact",
+      '{"L1":7} into EmbL3 (embedded struct L1 that has a field L1) is dropped', "internal/decoder/compile.go / internal/encoder/compiler.go: an embedded struct whose type name equals one of its own field names hides that field",
+      "other drops on EmbL3/EmbL3Ptr", "anonymous-field flattening")
+known("KF-C15-07", "C15", FS, "decode-embedded", r"(verdict|fields-set-differ)", r"(EmbTaggedWins|EmbShadow):exact",
+      '{"W":7} into EmbTaggedWins (tagged W beats untagged W at the same depth) is dropped; {"b":7} into EmbShadow is not a type error', "dominance rules (tagged wins, ambiguity) not implemented in the decoder",
+      "other dominance differences on these two types", "see KF-C01-EMB")
+known("KF-C15-08", "C15", "member-names", "Marshal", r"members-differ", r"embedded:(EmbL3|EmbShadow|EmbL3Ptr)",
+      'Marshal(EmbL3{}) omits L3, L2, L1', "see KF-C15-06 / KF-C01-EMB", "other member-set differences on these types", "see KF-C01-EMB")
+
 json.dump({"comment": "generated by tools/gen_known.py; never written at check time", "findings": F},
           open(os.path.join(os.path.dirname(os.path.abspath(__file__)), "..", "known_findings.json"), "w"), indent=1, ensure_ascii=False)
 print(len(F), "entries")
